@@ -13,6 +13,9 @@ SHAPES = """
 (let () %b1 %b2)
 (let ((%n1 %v1)) %b1)
 (let ((%n1 %v1) (%n2 %v2)) %b1 %b2)
+(let ((%n1 %v1)) ((%f %a)) %b2)
+(let ((%n1 %v1) (%n2 %v2)) ((%f %a) (%g %b)) %b2 %b3)
+(let* ((%n1 %v1) (%n2 %v2)) ((%f %a)) %b2)
 (let* () %b1)
 (let* ((%n1 %v1)) %b1)
 (let* ((%n1 %v1) (%n2 %v2)) %b1)
